@@ -507,6 +507,21 @@ theorem loadEnvFiles_append (penv : List (Key × Str)) (fs : FS) (a b : List Env
     | error e => rfl
     | ok vars => exact ih _
 
+/-! ### the fold over ordered layers -/
+
+theorem pickFrom_fileLayers (penv : List (Key × Str)) (pre files : List (List Line)) (k : Key) :
+    pickFrom ((filesVal penv pre k).map some) (fileLayersFrom penv pre files) k =
+      (filesVal penv (pre ++ files) k).map some := by
+  induction files generalizing pre with
+  | nil => simp [fileLayersFrom, pickFrom]
+  | cons f r ih =>
+    have e : pre ++ f :: r = (pre ++ [f]) ++ r := by simp
+    rw [e, ← ih (pre ++ [f])]
+    simp only [fileLayersFrom, pickFrom, List.foldl_cons]
+    congr 1
+    rw [filesVal_snoc]
+    cases fileVal (envLook penv (filesVal penv pre)) f k <;> rfl
+
 /-! ### all services -/
 
 theorem collect_cons_ok {α : Type} (n : Str) (a : α) (rs : List (Str × Except Err α)) :
